@@ -558,6 +558,65 @@ def build_program(text):
     return ok, b
 
 
+def chain_program(nroot, depth, style):
+    """One house: nroot ordinary framers each use the same chain of `depth` moot framers (m1 clones m2 clones ...), either as
+    insular clones (`as mine`) or with the same explicit tag at every level.  Every clone name is generated by ioflo."""
+    L = ["house h"]
+    for r in range(nroot):
+        L += ["  framer r%d be active first a0" % r, "    frame a0",
+              "      aux m1 as %s" % ("mine" if style == "mine" else "t1"), "      print root"]
+    for k in range(1, depth + 1):
+        L += ["  framer m%d be moot first x0" % k, "    frame x0"]
+        if k < depth:
+            L.append("      aux m%d as %s" % (k + 1, "mine" if style == "mine" else "t%d" % (k + 1)))
+        L.append("      print moot")
+    return "\n".join(L) + "\n"
+
+
+def chain_work(params):
+    core.use_repo()
+    from ioflo.base import framing
+    p = core.Part()
+    for prm in params:
+        nroot, depth, style = prm
+        text = chain_program(nroot, depth, style)
+        case = "roots=%d depth=%d clones='%s'" % (nroot, depth, "as mine" if style == "mine" else "as t<k>")
+        p.evaluations += 1
+        p.nontrivial(("chain",) + tuple(prm))
+        try:
+            with core.watchdog(60):
+                ok, b = build_program(text)
+        except core.Watchdog:
+            raise
+        except Exception as ex:
+            p.outcome("chain:build-raises")
+            p.violation("chain|build-raises %s" % type(ex).__name__, case, "building a plan whose clone names are all generated raised %s: %s" % (type(ex).__name__, "".join(map(str, ex.args)) or ex), dict(program=text))
+            continue
+        if not ok:
+            p.outcome("chain:build-refused")
+            p.violation("chain|build-refused", case,
+                        "Builder/resolve refused a legal plan in which every clone name is generated by ioflo (a generated framer name collided?)",
+                        dict(program=text))
+            continue
+        problems = []
+        for house in b.houses:
+            framers = [t for t in house.taskers if isinstance(t, framing.Framer)]
+            names = [f.name for f in framers]
+            p.notes["chain_framers_checked"] += len(framers)
+            if len(set(names)) != len(names):
+                problems.append("two framers share a name: %r" % sorted(n for n in set(names) if names.count(n) > 1))
+            for f in framers:
+                if house.names["tasker"].get(f.name) is not f:
+                    problems.append("framer %r is not the instance registered under its name" % f.name)
+            want = nroot + depth + nroot * depth
+            if len(framers) != want:
+                problems.append("%d framers in the house, expected %d (roots + moots + one clone per root and level): %r" % (len(framers), want, sorted(names)))
+        p.outcome("chain:ok depth=%d" % depth if not problems else "chain:problem")
+        if problems:
+            p.violation("chain|" + problems[0].split(":")[0], case, "; ".join(problems[:3]), dict(program=text, problems=problems))
+    return p
+
+
 def program_work(params):
     core.use_repo()
     from ioflo.base import framing, tasking, logging
@@ -658,6 +717,10 @@ def run():
                         grid.append((nh, nf, nfr, nclone, nlog))
     chunks = [grid[i::8] for i in range(8)]
     pparts = core.pmap(program_work, chunks, procs=min(core.NPROC, 8))
+    # clone chains: simplest first, one shard (a handful of builds)
+    chains = [(nroot, depth, style) for depth in ((1, 2, 3) if QUICK else (1, 2, 3, 4, 5))
+              for nroot in ((2,) if QUICK else (2, 3)) for style in ("mine", "named")]
+    pparts.append(chain_work(chains))
     pv = []
     for p in pparts:
         pv.extend(p.violations)
@@ -665,7 +728,7 @@ def run():
     ck.merge(pparts)
     for v in sorted(pv, key=lambda v: (len(v[3].get("program", "")) if isinstance(v[3], dict) else 0, v[1])):
         ck.part.violation(*v)
-    ck.coverage_extra = dict(focused_family=dict(preload=hist_str(FOCUS_PRELOAD), operations_after_preload=FOCUS_DEPTH, shards=len(ffirsts)), all_outcomes=dict(sorted(ck.part.outcomes.items())), first_operations=len(firsts), max_depth_after_first=MAX_DEPTH, programs=len(grid),
+    ck.coverage_extra = dict(clone_chain_programs=len(chains), focused_family=dict(preload=hist_str(FOCUS_PRELOAD), operations_after_preload=FOCUS_DEPTH, shards=len(ffirsts)), all_outcomes=dict(sorted(ck.part.outcomes.items())), first_operations=len(firsts), max_depth_after_first=MAX_DEPTH, programs=len(grid),
                              explicit_names=EXPL, randint_draws_enumerated=RCAP, randint_answers=[0, 1])
     ck.assumptions = [
         "Clear() starts a fresh class-level namespace (it rebinds the class registry); a house's own registry is untouched and becomes current again on assignRegistries()",
@@ -680,8 +743,10 @@ def run():
              "(x every randint answer sequence), Clear x5, ClearRegistries, assignRegistries per house, assignFrameRegistry and clone per framer}; at most %d houses and %d framers (+1 clone); "
              "registries (contents by instance identity and which registry object is current) compared with the reference after every operation.  "
              "Second family: from 'house h current, owning tasker x, log x, framer f' every history of %d operations over {per-class Clear, ClearRegistries, "
-             "assignRegistries of the same house, Framer.clone, explicit-duplicate and automatic creations}.  Plus %d generated programs built through Builder."
-             % (len(firsts), MAX_DEPTH, MAX_HOUSES, MAX_FRAMERS, FOCUS_DEPTH, len(grid)),
+             "assignRegistries of the same house, Framer.clone, explicit-duplicate and automatic creations}.  Plus %d generated programs built through Builder, "
+             "plus %d clone-chain plans (2-3 root framers each cloning the same chain of 1..%d moot framers, insular or equally tagged; the build must succeed and all "
+             "framer names of the house be distinct and registered to their own instance)."
+             % (len(firsts), MAX_DEPTH, MAX_HOUSES, MAX_FRAMERS, FOCUS_DEPTH, len(grid), len(chains), max(c[1] for c in chains)),
         exhaustive=False,
         explanation="complete for histories of at most %d operations over the stated alphabet; not a fixpoint" % (MAX_DEPTH + 1))
 
